@@ -1,9 +1,18 @@
 ---- MODULE RemoteGen ----
 (* Behaviour generator for binding B2 of C08: Remote.tla's Next with a history variable. *)
 EXTENDS Remote, Json
+CONSTANT Systematic   \* TRUE: enumerate (model-checking mode) every behaviour of the shape
+                      \*   fault-free build on A (with or without the remote) ; fault-free actions ; build with the remote and at most
+                      \*   one faulty operation ; fault-free build on B with the remote
 VARIABLE hist
 GInit == Init /\ hist = <<>>
+IsB(l) == l.kind = "build"
+SysOK == /\ steps = 0 => IsB(last') /\ last'.m = "A" /\ last'.f = {}
+         /\ (0 < steps /\ steps < MaxSteps - 2) => (IsB(last') => last'.f = {})
+         /\ steps = MaxSteps - 2 => IsB(last') /\ last'.remote /\ Cardinality(last'.f) <= 1
+         /\ steps = MaxSteps - 1 => IsB(last') /\ last'.m = "B" /\ last'.remote /\ last'.f = {}
 GNext == /\ Next
+         /\ Systematic => SysOK
          /\ hist' = Append(hist, [act |-> last', local |-> local', remote |-> remote', key |-> key'])
 GSpec == GInit /\ [][GNext]_<<vars, hist>>
 Emit == (steps = MaxSteps) => PrintT(<<"TRACEJSON", ToJson(hist)>>)
